@@ -32,7 +32,7 @@ LONG_LIVED = ('obey', 'poll', 'cancel', 'ignore')
 
 
 def gen_plan(ch: Chooser, tier: str) -> dict[str, Any]:
-    plan = spawning.gen_spawning_plan(ch)
+    plan = spawning.gen_spawning_plan(ch, sync_share=ch.choice([0.0, 0.0, 0.3, 0.7]))
     op = plan['operators'][0]
     names = sorted({o['body']['metadata']['name'] for o in plan['objects']} |
                    {a['body']['metadata']['name'] for a in plan['actions'] if a['do'] == 'create'})
@@ -169,7 +169,8 @@ def oracle(run: runner.Run, oc: Outcome) -> None:
                            f"i.e. before the cancellation backoff of {backoff}s elapsed", uid=uid, hid=hid)
             # 2b. ... and the cancellation does come once the backoff is over (for those that do not obey the flag)
             timeout = opts.get('cancellation_timeout')
-            if mode in ('cancel', 'ignore') and timeout is not None and flag_at is not None and not op.tearing_down:
+            if mode in ('cancel', 'ignore') and timeout is not None and flag_at is not None and not op.tearing_down \
+                    and not h['daemon'].get('sync'):  # (a thread cannot see its cancellation)
                 t_due = flag_at + float(backoff or 0.0)
                 # a pause or the exit of the operator takes the stopping over and restarts its stages from then
                 for (t_on, _) in rival:
